@@ -91,3 +91,39 @@ Proof.
   intros Hr Hf Hh Hs Hq. destruct (concurrent_store_is_sequential progs (init t) sched s Hr Hf) as [-> _].
   rewrite Hh. exact (last_writer_wins (init t) ops1 o ops2 id w e (inv_init t) Hs Hq).
 Qed.
+
+(* ---- the answers the concurrent callers get ---- *)
+Lemma ret_on_all (l : list (ccall * out)) : SerialEq.ret_on ueqb tt l = l.
+Proof. induction l as [|x l IH]; cbn; [reflexivity|]. f_equal. exact IH. Qed.
+
+Lemma serial_snd_is_run (l : list ccall) :
+  forall (f : unit -> st) (acc : list (ccall * out)),
+    map fst (snd (fold_left (SerialEq.serial_step ueqb dupd) l (f, acc))) = map fst acc ++ l /\
+    map snd (snd (fold_left (SerialEq.serial_step ueqb dupd) l (f, acc))) =
+      map snd acc ++ snd (run (f tt) (map (@SerialEq.c_op unit op) l)).
+Proof.
+  induction l as [|c l IH]; intros f acc; cbn [fold_left map run snd].
+  - rewrite !app_nil_r. split; reflexivity.
+  - pose (f' := SerialEq.set ueqb f (SerialEq.c_lock c) (fst (dupd (SerialEq.c_lock c) (SerialEq.c_op c) (f (SerialEq.c_lock c))))).
+    pose (acc' := acc ++ [(c, snd (dupd (SerialEq.c_lock c) (SerialEq.c_op c) (f (SerialEq.c_lock c))))]).
+    change (SerialEq.serial_step ueqb dupd (f, acc) c) with (f', acc').
+    destruct (IH f' acc') as [IH1 IH2].
+    rewrite IH1, IH2. unfold acc' at 1 2. rewrite !map_app. cbn [map fst snd]. rewrite <- !app_assoc. cbn [app].
+    split; [reflexivity|]. f_equal.
+    unfold acc', f', SerialEq.set, ueqb, dupd. destruct (SerialEq.c_lock c).
+    destruct (step (f tt) (SerialEq.c_op c)) as [s1 x]. cbn [fst snd].
+    destruct (run s1 (map (@SerialEq.c_op unit op) l)) as [s2 xs]. reflexivity.
+Qed.
+
+(* linearizability with return values: the calls, in the order in which their bodies ran, are the calls in
+   lock-acquisition order, and every caller got the answer the sequential history gives at that position *)
+Theorem concurrent_responses_are_sequential progs (s0 : st) sched (s : cstate) :
+  SerialEq.run ueqb dupd sched (SerialEq.init progs (fun _ => s0)) = Some s -> SerialEq.finished s = true ->
+  map fst (SerialEq.hist s) = SerialEq.acqs s /\
+  map snd (SerialEq.hist s) = snd (run s0 (map (@SerialEq.c_op unit op) (SerialEq.acqs s))).
+Proof.
+  intros Hr Hf.
+  destruct (SerialEq_proofs.serial_equivalence ueqb ueqb_spec dupd progs (fun _ => s0) sched s Hr Hf) as (_ & _ & Hret & _).
+  specialize (Hret tt). rewrite !ret_on_all in Hret. rewrite Hret. unfold SerialEq.serial.
+  destruct (serial_snd_is_run (SerialEq.acqs s) (fun _ => s0) []) as [H1 H2]. split; [exact H1|exact H2].
+Qed.
